@@ -1,6 +1,203 @@
+import GrafeoModel.Model.Join
+import GrafeoModel.Driver.Ops2
 import GrafeoModel.Driver.Proto
-/-! stream `join` (stub; replaced by its builder) -/
+/-! Stream `join` (C08, join operators). Stateless lines; see harness/src/join.rs for the
+line formats. -/
 open Grafeo Grafeo.Proto
 namespace DriverJoin
-def handle (_args : List String) : Option Out := none
+open Grafeo.Join Grafeo.Ops2 Grafeo.DriverOps2
+
+/-- the builder capacity in the code: `DataChunkBuilder::with_capacity(&schema, 2048)` -/
+def cap : Nat := 2048
+
+def parseJT : String → Option JT
+  | "inner" => some .inner | "left" => some .left | "right" => some .right | "full" => some .full
+  | "cross" => some .cross | "semi" => some .semi | "anti" => some .anti
+  | _ => none
+
+def parseCell (pos : Nat) (s : String) : Option Val :=
+  if s == "#" then some (.int pos) else
+  match s.toList with
+  | 'F' :: r => if r.length = 16 then parseTok s else none
+  | _ => parseTok s
+
+def repeatRow (cells : List String) : Nat → Nat → Option (List (List Val))
+  | 0, _ => some []
+  | n + 1, pos => do
+    let r ← cells.mapM (parseCell pos)
+    let rest ← repeatRow cells n (pos + 1)
+    pure (r :: rest)
+
+def parseSegs (ncols : Nat) : List String → Nat → Option (List (List Val))
+  | [], _ => some []
+  | seg :: segs, pos => do
+    let (rowS, n) ← match seg.splitOn "*" with
+      | [r] => some (r, 1)
+      | [r, n] => n.toNat?.map fun k => (r, k)
+      | _ => none
+    let cells := rowS.splitOn ","
+    if cells.length ≠ ncols || n > 100000 then none
+    else do
+      let rows ← repeatRow cells n pos
+      let rest ← parseSegs ncols segs (pos + n)
+      pure (rows ++ rest)
+
+def parseTbl (ncols : Nat) (s : String) : Option (List (List Val)) :=
+  if s == "-" then some [] else parseSegs ncols (s.splitOn ";") 0
+
+def parseSz (s : String) : Option (List Nat) :=
+  if s.startsWith "c:" then parseNatList (s.drop 2).toString else none
+
+def parseKeys (s : String) : Option (List Nat) :=
+  if s == "-" then some [] else (s.splitOn ",").mapM (fun t => t.toNat?)
+
+/-- the chunks the mock child hands out: `sizes` in order (cut at the end of the table), then
+whatever is left as one more chunk -/
+def splitChunks (rows : List (List Val)) : List Nat → List Chunk
+  | [] => if rows.isEmpty then [] else [rows]
+  | n :: ns => rows.take n :: splitChunks (rows.drop n) ns
+
+def showR (r : List Val) : String := if r.isEmpty then "()" else showRow r
+
+def showChunks (cs : List Chunk) : String :=
+  if cs.isEmpty then "-" else
+    joinWith "|" (cs.map fun c => if c.isEmpty then "_" else joinWith ";" (c.map showR))
+
+def showBag (rows : List (List Val)) : String :=
+  if rows.isEmpty then "-" else
+    joinWith ";" ((rows.map showR).mergeSort (fun a b => !(b < a)))
+
+def isFlt : Val → Bool
+  | .flt _ => true
+  | _ => false
+
+def keyCells (keys : List Nat) (rows : List (List Val)) : List Val :=
+  rows.flatMap fun r => keys.map fun k => r.getD k .null
+
+def sigOf (parts : List String) : String := if parts.isEmpty then "unclassified" else joinWith "+" parts
+
+def hashSpec (jt : JT) (pk bk : List Nat) (lcols rcols : Nat) (L R : List (List Val)) : Option (List (List Val)) :=
+  let θ := Spec.keysMatch pk bk
+  match jt with
+  | .inner => some (Spec.inner θ L R)
+  | .left => some (Spec.leftOuter θ rcols L R)
+  | .right => some (Spec.rightOuter θ lcols L R)
+  | .full => some (Spec.fullOuter θ lcols rcols L R)
+  | .cross => if pk.isEmpty then some (Spec.cross L R) else none
+  | .semi => some (Spec.semi θ L R)
+  | .anti => some (Spec.anti θ L R)
+
+def handleHash (chunked : Bool) (a : List String) : Option Out :=
+  match a with
+  | [jtS, lcS, rcS, pkS, bkS, lsS, rsS, ltS, rtS] => do
+    let jt ← parseJT jtS
+    let lcols ← lcS.toNat?
+    let rcols ← rcS.toNat?
+    if lcols = 0 || rcols = 0 || lcols > 8 || rcols > 8 then none else
+    let pk ← parseKeys pkS
+    let bk ← parseKeys bkS
+    if pk.length ≠ bk.length then none else
+    let ls ← parseSz lsS
+    let rs ← parseSz rsS
+    let L ← parseTbl lcols ltS
+    let R ← parseTbl rcols rtS
+    let probe := splitChunks L ls
+    let build := splitChunks R rs
+    -- `extract_key` with one key column that does not exist: `OperatorError::ColumnNotFound`
+    let err := (match bk with | [c] => decide (c ≥ rcols) && !R.isEmpty | _ => false) ||
+               (match pk with | [c] => decide (c ≥ lcols) && !L.isEmpty | _ => false)
+    if err then some { model := "err" } else
+    let fuel := L.length * R.length + L.length + R.length + 10
+    let (out, fin) := hashJoin jt pk bk cap lcols rcols probe build fuel
+    if !fin then some { model := "hang" } else
+    if chunked then some { model := showChunks out } else
+    let m := showBag out.flatten
+    match hashSpec jt pk bk lcols rcols L R with
+    | none => some { model := m }
+    | some sp =>
+      let s := showBag sp
+      if s == m then some { model := m, spec := s } else
+      let cells := keyCells pk L ++ keyCells bk R
+      let parts :=
+        (if cells.any isFlt then ["hash-join-float-key-as-bits"] else []) ++
+        (if (keyCells pk L).any (· == .null) && (keyCells bk R).any (· == .null) && (jt.keepsNull || pk.length ≠ 1)
+          then ["hash-join-null-key-matches"] else []) ++
+        (if jt.padsLeft && build.isEmpty && !L.isEmpty then ["left-join-short-row-without-build-chunk"] else [])
+      some { model := m, spec := s, sig := sigOf parts }
+  | _ => none
+
+def parseCond (s : String) : Option (Option (Nat × Nat)) :=
+  if s == "x" then some none
+  else if s.startsWith "e" then
+    match (s.drop 1).toString.splitOn "." with
+    | [l, r] => do
+      let a ← l.toNat?
+      let b ← r.toNat?
+      pure (some (a, b))
+    | _ => none
+  else none
+
+def handleNl (chunked : Bool) (a : List String) : Option Out :=
+  match a with
+  | [jtS, lcS, rcS, cS, lsS, rsS, ltS, rtS] => do
+    let jt ← parseJT jtS
+    let lcols ← lcS.toNat?
+    let rcols ← rcS.toNat?
+    if lcols = 0 || rcols = 0 || lcols > 8 || rcols > 8 then none else
+    let c ← parseCond cS
+    let ls ← parseSz lsS
+    let rs ← parseSz rsS
+    let L ← parseTbl lcols ltS
+    let R ← parseTbl rcols rtS
+    let cond : List Val → List Val → Bool := match c with
+      | none => fun _ _ => true
+      | some (lc, rc) => eqCond lc rc
+    let fuel := L.length * R.length + L.length + R.length + 10
+    let (out, fin) := nlJoin jt cap rcols cond (splitChunks L ls) (splitChunks R rs) fuel
+    if !fin then some { model := "hang" } else
+    if chunked then some { model := showChunks out } else
+    let m := showBag out.flatten
+    let θ : Option (List Val → List Val → Bool) := match c with
+      | none => some fun _ _ => true
+      | some (lc, rc) => if lc < lcols && rc < rcols then some (Spec.keysMatch [lc] [rc]) else none
+    let sp : Option (List (List Val)) := match θ, jt with
+      | some θ, .inner => some (Spec.inner θ L R)
+      | some θ, .cross => some (Spec.inner θ L R)
+      | some θ, .left => some (Spec.leftOuter θ rcols L R)
+      | _, _ => none       -- the operator has no RIGHT / FULL / SEMI / ANTI mode: it answers as INNER
+    match sp with
+    | none => some { model := m }
+    | some sp =>
+      let s := showBag sp
+      if s == m then some { model := m, spec := s } else
+      let cells := match c with
+        | some (lc, rc) => keyCells [lc] L ++ keyCells [rc] R
+        | none => []
+      let parts :=
+        (if cells.any isFlt then ["nl-equality-int-float-distinct"] else []) ++
+        (if cells.any (· == .null) then ["nl-equality-null-equals-null"] else [])
+      some { model := m, spec := s, sig := sigOf parts }
+  | _ => none
+
+def b01 (b : Bool) : String := if b then "1" else "0"
+
+def handleKey (x y : String) : Option Out := do
+  let a ← parseCell 0 x
+  let b ← parseCell 0 y
+  let f := match evalQ Quirks.code (.bin .eq (.lit a) (.lit b)) [] with
+    | some (.bool true) => "1"
+    | some (.bool false) => "0"
+    | some .null | none => "n"
+    | some v => showTok v
+  some { model := s!"{b01 (decide (HK.ofVal a = HK.ofVal b))};{b01 (valDerivedEq a b)};{f}" }
+
+def handle (args : List String) : Option Out :=
+  match args with
+  | "hash" :: rest => handleHash false rest
+  | "hash.c" :: rest => handleHash true rest
+  | "nl" :: rest => handleNl false rest
+  | "nl.c" :: rest => handleNl true rest
+  | ["key", x, y] => handleKey x y
+  | _ => none
+
 end DriverJoin
